@@ -13,7 +13,7 @@ import teneva
 LEVEL = "exploration"
 RULE = ("Hypothesis draws TT tensors with controlled decay of the bond spectra (d=2 with an explicitly prescribed spectrum: "
         "geometric / clustered / repeated / gapped; d>2 gauss cores with per-bond column decay 10^(-decay*j)), global scale "
-        "10^[-6,6], accuracy e log-uniform in [1e-12,0.9] or placed at (1 +- 1e-3) x a threshold where a bond rank changes, cap r "
+        "10^[-12,12], accuracy e log-uniform in [1e-12,0.9] or placed at (1 +- 1e-3) x a threshold where a bond rank changes, cap r "
         "in {1..max rank, 1e12, non-integer}, and all four (is_eigh, use_stab) combinations; oracle = LAPACK SVD of the input "
         "unfoldings (tails). add_many: lists of tensors/numbers with trunc_freq 1..4 against a mirrored error recursion. "
         "Non-trivial = at least one bond rank actually reduced; distinct by SHA-1 of the case.")
@@ -38,7 +38,7 @@ def floor_eigh(R, d, nrm):
 def decaying_specs(draw, tier, d_max=5):
     """TT spec with decaying bond spectra and a global scale."""
     kind = draw(st.sampled_from(["spectrum2", "decay", "decay", "family"]))
-    scale10 = draw(st.sampled_from([0, 0, 1, -1, 3, -3, 6, -6]))
+    scale10 = draw(st.sampled_from([0, 0, 1, -1, 3, -3, 6, -6, 9, -9, 12, -12]))
     if kind == "spectrum2":
         m = draw(st.integers(1, 8)); n = draw(st.integers(1, 8))
         q = min(m, n)
